@@ -26,6 +26,18 @@ HEADER = ("From Coq Require Import NArith ZArith List Bool String.\nImport ListN
           "From GT Require Import Base.Verdict.\nFrom GT Require Import GSortModel GSortTagModel GSortJudge Base.SortU.\n")
 
 
+GO_WITNESS = """From Coq Require Import List String Bool ZArith.
+From GT Require Import GSortModel GSortGoModel.
+From GTgen Require Import GsortGoGen.
+Import ListNotations.
+Set Printing Width 200. Set Printing Depth 1000.
+Definition R_go_bad := Eval vm_compute in
+  (List.length (filter (fun fs => negb (go_agrees_on gen_prog fs)) go_family),
+   map (fun fs => (fs, run_generator gen_prog "T" fs, model_result "T" fs))
+       (firstn 2 (filter (fun fs => negb (go_agrees_on gen_prog fs)) go_family))).
+Print R_go_bad.
+"""
+
 # ------------------------------------------------------------------ python-side helpers
 # (used only to LOCATE the offending observation for the replay file; verdicts come from Coq)
 
@@ -224,6 +236,17 @@ def run(ctx):
     # A broken tie is reported after the farm (which looks for a failing input) has run.
     tie_ok, tie_detail = ctx.translator_tie("xlate_gsort_tmpl", ["-repo", ctx.copy_repo()], "GsortTmplGen", "Tie_C08")
     ctx.log("template tie:", "OK" if tie_ok else "BROKEN", "-", tie_detail.splitlines()[0])
+    # (T) the Go code of the generator (createSorterDesc, Validate, PriorityTree, CompareLine.String
+    # and what they reach), translated by go/ast + go/types into the mini-Go of GSortGoModel.v and
+    # run in the kernel on a family of definitions: same result as the Coq model
+    # (coq/ties/Tie_C08_go.v)
+    ctx.coq_build(["theories/GSortGoModel.vo"])
+    go_ok, go_detail = ctx.translator_tie("xlate_gsort_go", ["-repo", ctx.copy_repo()], "GsortGoGen", "Tie_C08_go")
+    ctx.log("generator-code tie:", "OK" if go_ok else "BROKEN", "-", go_detail.splitlines()[0])
+    go_witness = None
+    if not go_ok:
+        rc, out = ctx.coq_eval("C08GoWitness", GO_WITNESS, timeout=300)
+        go_witness = out[-4000:] if rc == 0 else None
     farm = Farm(ctx, binp, gsort)
     args = ["-mode", "all", "-n", 24 if quick else 300, "-limit", 5600000 if quick else 30000000,
             "-runs", 6 if quick else 16]
@@ -291,6 +314,18 @@ def run(ctx):
                "replay_cmd": "./check C08 --replay <this file>"}
         if ctx.report(rep, shape(j), failing_input=(code == 1)) == "violation":
             ctx.violations += ["(like the replay above)"] * (len(members) - 1)
+    if not go_ok:
+        ctx.cov["generator_code_tie"] = {"status": "BROKEN", "detail": go_detail[-800:]}
+        if not any(code == 1 for (code, _, _) in groups):
+            ctx.report({"unchecked": "tie Tie_C08_go: the translated Go code of the generator (createSorterDesc / Validate / "
+                                     "PriorityTree / CompareLine.String), run in Coq on the family of definitions, computes "
+                                     "what the Coq model computes",
+                        "detail": go_detail[-2000:],
+                        "definitions_on_which_they_differ (translated code, model)": go_witness,
+                        "note": "the farm of this run found no input on which the generated Less departs from the specification"},
+                       {"kind": "translator_tie_go"}, failing_input=False)
+        elif go_witness:
+            ctx.cov["generator_code_tie"]["definitions_on_which_they_differ"] = go_witness[-1500:]
     if not tie_ok:
         ctx.cov["translator_tie"] = {"status": "BROKEN", "detail": tie_detail[-800:]}
         if not any(code == 1 for (code, _, _) in groups):
